@@ -200,3 +200,14 @@ PROPS['C16'] = {
     'outside': ['alignment passed to dealloc is not compared by Kani\'s allocator model', 'panicking closures (unwinding): engine M', 'blocks allocated and freed inside Vec/Box themselves are exercised through the real std code; std\'s own pairing is otherwise trusted'],
     'assumptions': ['stub: alloc::alloc::alloc may return null (ops_fail harnesses only)', 'stub: alloc::alloc::handle_alloc_error records that it was reached and ends the path'],
 }
+
+PROPS['C17'] = {
+    'kani': {
+        'quick': [krun(['c17::q::'], timeout=900, bounds='N in {0,1,3}; scripted SeqAccess: element count symbolic in 0..=N+2, up-front hint None or symbolic 0..=N+2 (exact, too small, too large, contradicting), later hint None or 0..=2, element error at a symbolic index; tracked elements; recording Serializer over symbolic u32 elements')],
+        'thorough': [krun(['c17::'], timeout=2400, bounds='N in {0,1,2,3,4,8}')],
+    },
+    'functions': ['Serialize for GenericArray', 'Deserialize for GenericArray', 'GAVisitor::visit_seq', 'Dummy'],
+    'bounds': 'K: N <= 3 (thorough 8).',
+    'outside': ['concrete formats (JSON, bincode, serde_json::Value): loop- and float-heavy parsers; their behaviour at the SeqAccess interface is an instance of the scripted space', 'the property\'s own exclusion: a source claiming nothing is left while holding elements (assumed away)'],
+    'assumptions': ['assume(!(later hint == Some(0) && count > N))', 'error type whose custom() ignores the message (error construction is not the subject)'],
+}
